@@ -233,6 +233,19 @@ def run(chk):
     from .c05 import import_lookup_contracts
     chk.guard("R8", lambda: import_lookup_contracts(chk, "R8", ["child", "child_parents_attr", "parameterized_parent_attr", "has_parent_attr", "has_parameterless_parent_attr"], with_chain=False))
 
+    def r9():
+        # from-direction of a parameterised #[parent(..)]: the struct opened at nesting level d is the type written at sub_path[d]
+        # (not the type of whichever member happens to open the group)
+        fi = repo.fn(EXPAND, "render_parent_child_fragment")
+        chk.rule("R9", "nested parent groups open the type of THEIR nesting level (sub_path[depth].1; the field's own type at the top)", floor=1)
+        src = render(fi.body).replace(" ", "")
+        uses = re.findall(r"sub_path((?:\.\w+\([^()]*\))+|\[[^\]]+\])\.?(?:1|and_then\(\|\w+\|\w+\.1)", src)
+        by_depth = re.search(r"sub_path\[(new_)?depth\]\.1", src) is not None
+        by_pos = re.search(r"sub_path\.(last|first)\(\)[^;]{0,40}\.1|sub_path\[0\]\.1|sub_path\[[^\]]*len\(\)-1\]\.1", src) is not None
+        chk.shape("R9", "render_parent_child_fragment/level-type", by_depth and not by_pos, by_pos, EXPAND, fi.line,
+                  what="the intermediate struct of a nested parent is built with the type of another nesting level", expected="sub_path[depth].1", found=uses[:3] or src[:80])
+    chk.guard("R9", r9)
+
 
 def render_pat_(p):
     from ..src import render_pat
